@@ -405,6 +405,12 @@ func (g *gen) runChainOn(root, db *gorm.DB, parts []part, fin string) (out outco
 		col2 := g.kcol()
 		sl, ls := g.sliceLeaves(col2, g.r.Range(1, 3))
 		finLeaves = append([]*leaf{l}, ls...)
+		if g.r.Intn(4) == 0 {
+			// the chain value already carries a raw statement with arguments of its own: the later
+			// Raw / Exec replaces it, text and arguments
+			db = db.Raw("SELECT c2 FROM tags WHERE c2 = ? OR c2 = ?", int64(7), int64(8))
+			d = append(d, `Raw("SELECT c2 FROM tags WHERE c2 = ? OR c2 = ?", 7, 8)`)
+		}
 		if g.r.Bool() {
 			q := "SELECT c1 FROM tags WHERE " + col + " = ? AND " + col2 + " IN ?"
 			if fin == "Exec" {
